@@ -33,3 +33,18 @@ var Contexts = []string{
 func Program(ctx, op string) string {
 	return "package main\n\ntype T struct{ a int }\n\nvar x0 int\n\nfunc v() {}\nfunc v2(int) {}\nfunc two() (int, int) { return 1, 2 }\n\nfunc main() {\nL:\n\tfor {\n\t\tbreak L\n\t}\n\t_ = x0\n\t" + strings.ReplaceAll(ctx, "%s", op) + "\n}\n"
 }
+
+// TemplateContexts are positions that exist only in templates; %s is replaced by the operand.
+var TemplateContexts = []string{
+	"{{ %s }}", "{% if %s %}a{% end %}", "{% if not %s %}a{% end %}", "{% if %s and true %}a{% end %}", "{% if true or %s %}a{% end %}", "{% if %s %}a{% else if %s %}b{% else %}c{% end %}",
+	"{% for %s %}a{% end %}", "{% for v in %s %}{{ v }}{% end %}", "{% for i, v in %s %}{{ i }}{% end %}", "{% for _, v := range %s %}{{ v }}{% else %}e{% end %}", "{% switch %s %}{% case 1 %}a{% end %}", "{% switch x := %s.(type) %}{% default %}{{ x }}{% end %}",
+	"{% show %s %}", "{% show %s, %s %}", "{{ %s contains 1 }}", "{{ \"s\" contains %s }}", "{{ %s not contains %s }}", "{{ %s default 1 }}", "{{ x0 default %s }}", "{{ render %s }}", "{% var y = %s %}{{ y }}", "{% y := %s %}{{ y }}",
+	"<a href=\"{{ %s }}\">x</a>", "<a href={{ %s }}>x</a>", "<p {{ %s }}>", "<script>var a = {{ %s }};</script>", "<script>var a = \"{{ %s }}\";</script>", "<style>p { color: {{ %s }}; }</style>", "<style>p { font-family: \"{{ %s }}\"; }</style>",
+	"{% macro M(a int) %}{{ a }}{% end %}{{ M(%s) }}", "{% macro M %}{{ %s }}{% end %}{{ M() }}", "{% macro M(a %s) %}{% end %}", "{% macro M %s %}{% end %}", "{{ M2(%s) }}{% macro M2(a ...int) %}{{ len(a) }}{% end %}", "{% using %}{{ %s }}{% end using %}", "{{ %s; using }}x{% end %}",
+	"{% select %}{% case <-%s %}a{% end %}", "{% defer %s %}", "{% go %s %}", "{% raw %s %}{% end %}", "{% extends %s %}", "{% import %s %}", "{% import p %s %}", "{# %s #}",
+}
+
+// TemplateProgram returns the HTML template with operand op in position ctx.
+func TemplateProgram(ctx, op string) string {
+	return "{% type T struct{ a int } %}{% var x0 int %}{% var v = func() {} %}{% var v2 = func(int) {} %}{% var two = func() (int, int) { return 1, 2 } %}" + strings.ReplaceAll(ctx, "%s", op)
+}
